@@ -91,44 +91,44 @@ def thresholds(allobs):
 
 def run(ctx, only=None):
     span, deep = ctx.pick(1, 3), ctx.pick(False, True)
-    # 1. exhaustive model check of the builder.go paths and the encodings + export of the plan
-    wd, r = mc(ctx, "mc", "builder", span, deep)
-    ctx.cov.update(states=r.distinct, transitions=r.generated, mc_wall_s=round(r.wall, 1), mc_invariants=INVS,
-                   bounds=f"registers<={MODEL['MaxRegisters']}, 8-bit tables<={MODEL['MaxTable8']}, value indexes<={MODEL['MaxValues14']}; Span={span}; Deep={deep}")
-    for line in r.printed:
-        m = re.match(r'<<"addresses_checked", (\d+)>>', line)
-        if m:
-            ctx.cov["address_round_trips_checked"] = int(m.group(1))
-    if not r.ok:
-        if r.invariant_violated:
-            ctx.cov["model_drift"] = "builder-path model violates " + ",".join(r.invariant_violated) + " (diagnostic only)"
-        else:
-            raise Infra(f"MC_Limits failed: {wd}/MC_Limits.out\n" + rig.tail(r.out, 30))
-    if not ctx.quick:
-        ctx.cov["actions_never_taken"] = r.coverage_zero()
-    cases = wd / "cases.ndjson"
-    if not cases.exists():
-        raise Infra("no cases.ndjson exported by MC_Limits")
-    # 1b. the allocation paths without a limit test (call sites): design-level counterexamples (diagnostic)
-    wd2, r2 = mc(ctx, "mc_callsites", "callsites", span, False, workers=1)
-    if r2.invariant_violated:
-        fu = re.findall(r'<<"first_unfaithful", "(\w+)", "(\w+)", (\d+)>>', r2.out)
-        ctx.cov["model_counterexample"] = {"model": "call-site allocation paths (emitter_func_store.go, emitter_assignment.go)",
-                                           "invariants": r2.invariant_violated,
-                                           "first_count_read_back_wrong": {f"{a}/{b}": int(c) for a, b, c in fu},
-                                           "tlc_out": str(wd2 / "MC_Limits.out")}
-    elif not r2.ok:
-        raise Infra(f"MC_Limits (callsites) failed: {wd2}/MC_Limits.out\n" + rig.tail(r2.out, 30))
-    # 1c. negative control of the model: one register more than int8 holds must break Faithful
-    if not ctx.quick:
-        _, r3 = mc(ctx, "mc_negctl", "negctl", span, False, model=dict(MODEL, MaxRegisters=128, MaxValues14=300))
-        ctx.cov["model_negative_control"] = {"MaxRegisters": 128, "violated": r3.invariant_violated}
-        if "Faithful" not in r3.invariant_violated:
-            raise Infra("negative control: model with 128 registers does not violate Faithful")
-    allcases = rig.read_ndjson(cases)
-    if only is not None:
-        allcases = [only]
-    rig.write_ndjson(cases, allcases)
+    if only is None:
+        # 1. exhaustive model check of the builder.go paths and the encodings + export of the plan
+        wd, r = mc(ctx, "mc", "builder", span, deep)
+        ctx.cov.update(states=r.distinct, transitions=r.generated, mc_wall_s=round(r.wall, 1), mc_invariants=INVS,
+                       bounds=f"registers<={MODEL['MaxRegisters']}, 8-bit tables<={MODEL['MaxTable8']}, value indexes<={MODEL['MaxValues14']}; Span={span}; Deep={deep}")
+        for line in r.printed:
+            m = re.match(r'<<"addresses_checked", (\d+)>>', line)
+            if m:
+                ctx.cov["address_round_trips_checked"] = int(m.group(1))
+        if not r.ok:
+            if r.invariant_violated:
+                ctx.cov["model_drift"] = "builder-path model violates " + ",".join(r.invariant_violated) + " (diagnostic only)"
+            else:
+                raise Infra(f"MC_Limits failed: {wd}/MC_Limits.out\n" + rig.tail(r.out, 30))
+        if not ctx.quick:
+            ctx.cov["actions_never_taken"] = r.coverage_zero()
+        cases = wd / "cases.ndjson"
+        if not cases.exists():
+            raise Infra("no cases.ndjson exported by MC_Limits")
+        # 1b. the allocation paths without a limit test (call sites): design-level counterexamples (diagnostic)
+        wd2, r2 = mc(ctx, "mc_callsites", "callsites", span, False, workers=1)
+        if r2.invariant_violated:
+            fu = re.findall(r'<<"first_unfaithful", "(\w+)", "(\w+)", (\d+)>>', r2.out)
+            ctx.cov["model_counterexample"] = {"model": "call-site allocation paths (emitter_func_store.go, emitter_assignment.go)",
+                                               "invariants": r2.invariant_violated,
+                                               "first_count_read_back_wrong": {f"{a}/{b}": int(c) for a, b, c in fu},
+                                               "tlc_out": str(wd2 / "MC_Limits.out")}
+        elif not r2.ok:
+            raise Infra(f"MC_Limits (callsites) failed: {wd2}/MC_Limits.out\n" + rig.tail(r2.out, 30))
+        # 1c. negative control of the model: one register more than int8 holds must break Faithful
+        if not ctx.quick:
+            _, r3 = mc(ctx, "mc_negctl", "negctl", span, False, model=dict(MODEL, MaxRegisters=128, MaxValues14=300))
+            ctx.cov["model_negative_control"] = {"MaxRegisters": 128, "violated": r3.invariant_violated}
+            if "Faithful" not in r3.invariant_violated:
+                raise Infra("negative control: model with 128 registers does not violate Faithful")
+    else:
+        cases = ctx.work / "cases.ndjson"      # a replay case is self-contained: no model run
+        rig.write_ndjson(cases, [only])
     # 2. replay into the real code
     srcdir = ctx.work / "src"
     obs = ctx.work / "obs.ndjson"
